@@ -721,6 +721,8 @@ func (e *SpecEnv) call(x *SX) Term {
 		var r Term
 		if a.T.K == KSlice {
 			r = sliceRef(a)
+		} else if a.T.K == KIface {
+			r = Term{"(i-val " + a.S + ")", sInt} // the object the interface value points to
 		} else {
 			r = Term{a.S, sInt}
 		}
